@@ -1,6 +1,8 @@
 import Vata.Lang
 import Vata.Candidate
 import Vata.Proofs.Candidate
+import Vata.Proofs.Store
+import Vata.Properties.RefTotal
 /-!
 # C15 – The witness automaton is a sub-language, empty only for an empty language
 
@@ -60,13 +62,55 @@ theorem C15_contract_check_sound (A C : TA) :
 example : candidateOkB CandEx.exA (candidate CandEx.exA) = true ∧ candidateOkB CandEx.exA ⟨[], []⟩ = false ∧
     candidateOkB CandEx.exA ⟨[⟨7, [], 5⟩], [5]⟩ = false := by decide
 
+/-! ### the enumeration the container really provides, and the reference -/
+
+/-- the hypothesis of `C15_every_enumeration_order` discharged by C12: take for the enumeration what ITERATING the rule
+container yields after any history `ops` of the mutating calls (`Store.iterate (Store.run ops)`, in whatever order the container
+stores the rules).  It lists exactly the rules added since the last `Clear`, so for the automaton `A` with these rules (any
+final states) the witness automaton computed from that enumeration is a sub-language and is non-empty whenever `A` is -/
+theorem C15_enumeration_by_container (ops : List Store.Op) (F : List Nat) :
+    let A : TA := ⟨(Store.specRun ops).rules, F⟩
+    Incl (candidateOrd (fun _ => Store.iterate (Store.run ops)) A) A ∧
+    ((∃ t, accepts A t = true) → ∃ t, accepts (candidateOrd (fun _ => Store.iterate (Store.run ops)) A) t = true) := by
+  intro A
+  have h := (Store.iterate_exact ops).2
+  exact ⟨(C15_every_enumeration_order _ A).1 (fun r hr => (h r).mp hr),
+    (C15_every_enumeration_order _ A).2 (fun r hr => (h r).mpr hr)⟩
+
+-- the container yields the rules in another order than they were added, and each once although two were added twice
+example : Store.iterate (Store.run Store.StoreEx.ops1) =
+      [Store.StoreEx.r1, Store.StoreEx.r2, Store.StoreEx.r3, Store.StoreEx.r4] ∧
+    (Store.specRun Store.StoreEx.ops1).rules.length = 6 := by decide
+
+/-- the checks the driver runs on the automaton the real code returns are decided above the explicit bound, and on the model
+they come out as the property says: `inclM` answers `true`, and the two emptiness verdicts coincide -/
+theorem C15_model_passes_reference (A : TA) (fuel : Nat) (h : fuelBoundM [candidate A, A] ≤ fuel) :
+    inclM (candidate A) A fuel = some true ∧ emptyM (candidate A) fuel = emptyM A fuel := by
+  obtain ⟨⟨b, hb, e⟩, ⟨b₁, hb₁, e₁⟩, ⟨b₂, hb₂, e₂⟩⟩ := C15_reference_total (candidate A) A fuel h
+  refine ⟨by rw [hb, e.mpr (C15_witness A).2.1], ?_⟩
+  rw [hb₁, hb₂]
+  congr 1
+  rw [Bool.eq_iff_iff, e₁, e₂]
+  exact (C15_witness A).2.2.2
+
+example : fuelBoundM [candidate CandEx.exE, CandEx.exE] ≤ 64 := by decide
+
 /-!
+## closed since the last refresh of this file
+
+* **"The order-independence theorem quantifies over enumerations of the *rule list*; that the iteration of the C++ three-level
+  container yields each rule (C12) is a separate property"** – composed: `C15_enumeration_by_container` (with
+  `C12_iteration_exact`; for the iterator OBJECTS see `C12_iterator_protocol_yields_exact`).
+* Totality of the reference deciders behind the check (`inclM`, `emptyM`): `C15_reference_total`
+  (`Vata/Properties/RefTotal.lean`), composed with the model in `C15_model_passes_reference`.
+* The same operation on word automata, with and without start symbols: `C10_witness`, `C10_start_witness_spec`.
+
 ## not yet proved
 
 * Nothing of the property statement is missing for the model: sub-language and non-emptiness are proved for `candidate`
   and for every enumeration order.
 * Not claimed (and not part of the statement): that the witness automaton accepts exactly one tree, or a smallest one.
-* The order-independence theorem quantifies over enumerations of the *rule list*; that the iteration of the C++ three-level
-  container yields each rule (C12) is a separate property.
+* The final `RemoveUnreachableStates` of `GetCandidateTree` returns a result that may share storage with the intermediate
+  automaton; sharing is C11 and is not composed with `candidate` here.
 -/
 end Vata.Props
